@@ -7,7 +7,7 @@
 #include "contracts/C14_io.h"
 #include "stubs/C14_vsv.h"
 
-#define C14_FRESH_SRC __CPROVER_requires(g_pos == 0 && g_eof_seen == 0 && g_err_seen == 0 && g_overrun == 0) __CPROVER_requires(g_vsv_cap >= 0x4000 && g_vsv_cap <= VSTR_MAXCAP) __CPROVER_requires(__CPROVER_is_fresh(g_vsv_buf, g_vsv_cap))
+#define C14_FRESH_SRC __CPROVER_requires(g_pos == 0 && g_eof_seen == 0 && g_err_seen == 0 && g_overrun == 0) __CPROVER_requires(g_vsv_cap >= 0x100000 && g_vsv_cap <= VSTR_MAXCAP) __CPROVER_requires(__CPROVER_is_fresh(g_vsv_buf, g_vsv_cap))
 
 /* everything up to end-of-file, or io_error iff a read failed */
 void phosg_read_all_fd(vstr* ret, int fd)
@@ -38,5 +38,5 @@ __CPROVER_ensures(verif_exc != 0 ==> g_err_seen)
 __CPROVER_ensures(verif_exc == 0 ==> !g_overrun)                               /* never reads into the next line */
 __CPROVER_ensures(verif_exc == 0 ==> ret->size == g_src_len)                   /* the whole line, no padding */
 __CPROVER_ensures((verif_exc == 0 && g_vk < ret->size) ==> (uint8_t)ret->data[g_vk] == g_sval)
-__CPROVER_assigns(C14_SRC_ASSIGNS, g_overrun, g_fg_buf, g_fg_len, g_cval, ret->size, __CPROVER_object_whole(ret->data));
+__CPROVER_assigns(C14_SRC_ASSIGNS, g_overrun, g_fg_buf, g_fg_len, __CPROVER_object_whole(g_vsv_buf), g_cval, ret->size, __CPROVER_object_whole(ret->data));
 #endif
